@@ -130,10 +130,11 @@ DecExpected(e) == IF e.kind = "pk_bytes" THEN PtBytes(DecodePoint(e.input))
                   ELSE IF e.kind = "spki_der" THEN SpkiExp(SpkiDecode(e.input))
                   ELSE IF e.kind = "pkcs8_der" THEN P8Exp(Pkcs8Decode(e.input))
                   \* a PEM text the driver assembled from a DER it also logged: if the text IS the PEM armour of that DER, the document is judged by the DER templates
-                  ELSE IF e.kind = "pkcs8_pem" /\ Len(e.der) > 0 /\ Pem(LabelPriv, e.der) = e.input THEN P8Exp(Pkcs8Decode(e.der))
-                  ELSE IF e.kind = "spki_pem" /\ Len(e.der) > 0 /\ Pem(LabelPub, e.der) = e.input THEN SpkiExp(SpkiDecode(e.der))
+                  \* (with LF or with CRLF line endings: RFC 7468 allows both)
+                  ELSE IF e.kind = "pkcs8_pem" /\ Len(e.der) > 0 /\ e.input \in {Pem(LabelPriv, e.der), CrLf(Pem(LabelPriv, e.der))} THEN P8Exp(Pkcs8Decode(e.der))
+                  ELSE IF e.kind \in {"spki_pem", "spki_pem_str"} /\ Len(e.der) > 0 /\ e.input \in {Pem(LabelPub, e.der), CrLf(Pem(LabelPub, e.der))} THEN SpkiExp(SpkiDecode(e.der))
                   ELSE <<"lenient">>                                   \* other PEM: judged through re-encoding when canonical (below)
-IsPub(e) == e.kind \in {"pk_bytes", "pk_hex", "spki_der", "spki_pem"}
+IsPub(e) == e.kind \in {"pk_bytes", "pk_hex", "spki_der", "spki_pem", "spki_pem_str"}
 ValidOut(e) == IF IsPub(e) THEN DecodePoint(e.out)[1] = "ok" ELSE ValidPrivate(e.out) \/ Len(e.out) = 32
 \* canonical PEM documents (library-made or OpenSSL-made): decoding must succeed and re-encode to the same text
 PemCanonOK(e) == IF e.kind = "spki_pem" THEN e.outcome = "ok" /\ DecodePoint(e.out)[1] = "ok" /\ Pem(LabelPub, Spki(DecodePoint(e.out)[2])) = e.input
@@ -161,7 +162,10 @@ PairClass(a, b) == IF a = Inf /\ b = Inf THEN "O+O" ELSE IF a = Inf THEN "O+Q" E
                    ELSE IF a = b THEN "P=Q" ELSE IF a = C!Neg(b) THEN "P=-Q" ELSE IF a[2] = b[2] THEN "same-y" ELSE IF a[1] = b[1] THEN "same-x" ELSE "generic"
 OutOK(e, expected) == e.outcome = "ok" /\ JCanon(e.out) /\ Denote(e.out) = expected
 EcKind(e) == IF Crash(e) THEN e.outcome ELSE "wrong-point"
-EcAdd3(e, a, b) == Stay /\ tlast' = Verdict(e, OutOK(e, C!PAdd(a, b)), "add." \o PairClass(a, b) \o (IF a = b /\ e.p # e.q THEN ".diffZ" ELSE ""), EcKind(e))
+\* (an operand that IS the point at infinity but not in the form (mont 1, mont 1, 0) the constructor writes -- what P + (-P), [n]G leave behind, or (t^2, t^3, 0) -- is its own class)
+CanonO(p) == JX(p) = MontOne /\ JY(p) = MontOne
+OtherO(e, a, b) == (a = Inf /\ ~CanonO(e.p)) \/ (b = Inf /\ ~CanonO(e.q))
+EcAdd3(e, a, b) == Stay /\ tlast' = Verdict(e, OutOK(e, C!PAdd(a, b)), "add." \o PairClass(a, b) \o (IF a = b /\ a # Inf /\ e.p # e.q THEN ".diffZ" ELSE "") \o (IF OtherO(e, a, b) THEN ".otherO" ELSE ""), EcKind(e))
 EcAdd1(e) == IF ValidInput(e.p) /\ ValidInput(e.q) THEN EcAdd3(e, Denote(e.p), Denote(e.q)) ELSE Stay /\ tlast' = Verdict(e, ~Crash(e), "add.invalid-input", e.outcome)
 EcUn2(e, a, expected, class) == Stay /\ tlast' = Verdict(e, OutOK(e, expected), class, EcKind(e))
 EcDbl1(e) == IF ValidInput(e.p) THEN EcUn2(e, Denote(e.p), C!Dbl(Denote(e.p)), IF Denote(e.p) = Inf THEN "dbl.O" ELSE "dbl") ELSE Stay /\ tlast' = Verdict(e, ~Crash(e), "dbl.invalid-input", e.outcome)
